@@ -389,6 +389,51 @@ impl ObjStringStore {
 }
 //@const file=yarel/src/vm.rs name=string_store::INIT_CAPACITY
 
+
+// ------------------------------------------------------------------ FNV-1a (hash.rs): the string hash is a function of the byte sequence alone
+//@struct file=yarel/src/hash.rs name=FnvHasher
+pub open spec fn fnv_step(h: u64, c: u8) -> u64 { (((h ^ (c as u64)) as u128 * 16777619) as u64) }
+pub open spec fn fnv_fold(h: u64, bytes: Seq<u8>) -> u64
+    decreases bytes.len()
+{
+    if bytes.len() == 0 { h } else { fnv_fold(fnv_step(h, bytes[0]), bytes.subrange(1, bytes.len() as int)) }
+}
+proof fn lemma_fnv_fold_snoc(h: u64, bytes: Seq<u8>, c: u8)
+    ensures fnv_fold(h, bytes.push(c)) == fnv_step(fnv_fold(h, bytes), c)
+    decreases bytes.len()
+{
+    let b2 = bytes.push(c);
+    if bytes.len() == 0 {
+        assert(b2.subrange(1, 1) =~= Seq::<u8>::empty());
+        assert(b2[0] == c);
+        assert(fnv_fold(h, b2) == fnv_fold(fnv_step(h, c), b2.subrange(1, 1)));
+        assert(fnv_fold(fnv_step(h, c), Seq::<u8>::empty()) == fnv_step(h, c));
+        assert(fnv_fold(h, bytes) == h);
+    } else {
+        let tail = bytes.subrange(1, bytes.len() as int);
+        assert(b2.subrange(1, b2.len() as int) =~= tail.push(c));
+        assert(b2[0] == bytes[0]);
+        lemma_fnv_fold_snoc(fnv_step(h, bytes[0]), tail, c);
+        assert(fnv_fold(h, b2) == fnv_fold(fnv_step(h, bytes[0]), tail.push(c)));
+        assert(fnv_fold(h, bytes) == fnv_fold(fnv_step(h, bytes[0]), tail));
+    }
+}
+impl FnvHasher {
+    //@fn file=yarel/src/hash.rs path="<Hasher for FnvHasher>::write"
+    //@  ensures final(self).hash == fnv_fold(old(self).hash, msg@)
+    //@  loop 0 iter it
+    //@  loop 0 invariant it.seq().len() == msg@.len(), forall|j: int| 0 <= j < msg@.len() ==> *it.seq()[j] == msg@[j]
+    //@  loop 0 invariant self.hash == fnv_fold(old(self).hash, msg@.subrange(0, it.index@ as int))
+    //@  before_stmt "for c in" proof { assert(msg@.subrange(0, 0) =~= Seq::<u8>::empty()); }
+    //@  at loop0.start let ghost h0 = self.hash;
+    //@  at loop0.end proof { lemma_fnv_fold_snoc(old(self).hash, msg@.subrange(0, it.index@ as int), *c); assert(msg@.subrange(0, it.index@ as int).push(*c) =~= msg@.subrange(0, it.index@ as int + 1)); }
+    //@  at body.end proof { assert(msg@.subrange(0, msg@.len() as int) =~= msg@); }
+    //@end
+    //@fn file=yarel/src/hash.rs path="<Default for FnvHasher>::default" ret=r
+    //@  ensures r.hash == 2166136261
+    //@end
+}
+
 // ------------------------------------------------------------------ Vm::new_gc_obj_string
 // FNV-1a over the bytes of the str (hash.rs FnvHasher + std `impl Hash for str`): a function of the byte sequence.
 // Determinism/totality of FnvHasher::write is checked by Kani (unit hashk, bounded length); std's Hash for str is trusted.
